@@ -40,10 +40,14 @@ def fl(fr):
 def gen_system(rng):
     name = rng.choice(['siemens', 'siemens', 'ge', 'g20', 'p64', 'fine', 'b10g5', 'b10g5', 'b10g20', 'b10g20', 'b20g10'])
     br, rr, gr, ar = (Fraction(s) for s in FAMILIES[name])
-    # dead times as multiples of the rf raster (ADC delays have to be on the rf raster)
+    # dead / ring-down times: mostly multiples of the rf raster, but also "measured" values that are NOT on it
+    # (e.g. 100.4 us with a 1 us raster): delays then have to be rounded UP to the raster to respect them
     def mult(us_choices):
         us = rng.choice(us_choices)
-        return math.ceil(Fraction(us, 10 ** 6) / rr) * rr
+        v = math.ceil(Fraction(us, 10 ** 6) / rr) * rr
+        if us and rng.random() < 0.3:
+            v += rng.choice([Fraction(2, 5), Fraction(3, 10), Fraction(3, 5)]) * rr
+        return v
     return {'family': name, 'block': fl(br), 'rf': fl(rr), 'grad': fl(gr), 'adc': fl(ar),
             'rf_dead': fl(mult([0, 0, 50, 72, 100, 100, 150])), 'rf_ring': fl(mult([0, 0, 20, 30, 60])),
             'adc_dead': fl(mult([0, 0, 10, 20, 40]))}
@@ -73,7 +77,7 @@ def gen_event(rng, s, kind, ch=None):
     if kind in ('rfb', 'rfs'):
         n = rng.randint(10, 400) if kind == 'rfs' else rng.randint(10, 3000)
         dead = F(s['rf_dead'])
-        delay = dead + rng.choice([0, 0, 1, 3, 17, 100]) * rr
+        delay = (math.ceil(dead / rr - Fraction(1, 10 ** 6)) + rng.choice([0, 0, 1, 3, 17, 100])) * rr
         return {'k': kind, 'dur': fl(n * rr), 'delay': fl(delay), 'flip': rng.choice([0.2, 1.5707963, 3.14159]),
                 'use': rng.choice(['', 'excitation', 'refocusing', 'inversion']), 'alt': False, 'set': {}}
     if kind == 'trap':
@@ -102,7 +106,7 @@ def gen_event(rng, s, kind, ch=None):
         return {'k': 'arb', 'ch': ch, 'w': w, 'delay': fl(rng.choice([0, 0, 1, 5, 20]) * gr), 'alt': False, 'set': {}}
     if kind == 'adc':
         dead = F(s['adc_dead'])
-        delay = dead + rng.choice([0, 0, 1, 5, 40]) * rr
+        delay = (math.ceil(dead / rr - Fraction(1, 10 ** 6)) + rng.choice([0, 0, 1, 5, 40])) * rr
         return {'k': 'adc', 'n': rng.choice([1, 4, 16, 64, 100, 256]), 'dwell': fl(rng.randint(1, 200) * ar * rng.choice([1, 1, 10])),
                 'delay': fl(delay), 'alt': False, 'set': {}}
     if kind == 'trig':
